@@ -946,7 +946,7 @@ def main(tier, seed):
     }
     common.write_evidence(PROP, tier, seed, "fault_enumeration", cov, wall, nviol,
                           ["finite inputs only: every operand handed to the library is finite; objects whose construction overflowed are rebuilt from modest values",
-                           "stream exception mask stays off (ios_base::failure would be the standard library honouring the caller's request)",
+                           "with the caller's stream exception mask ON, std::ios_base::failure (and the simulated device's own exception) may propagate: that is the caller's request; std::terminate or any other exception is still a violation",
                            "global locale, C locale and rounding mode are at their defaults",
                            "std::tolower/toupper on negative char values is defined by glibc and not flagged by any tool here",
                            "data races need threads, which no property calls for",
